@@ -1,3 +1,3 @@
 #include "hx.h"
-extern const struct hx_harness h_c01, h_c04, h_c05, h_c06, h_c12, h_c07, h_c15, h_c08, h_c09, h_c02, h_c17, h_c16, h_c10, h_c11, h_c13, h_c03, h_c03_deep, h_c14, h_c20, h_c16_cxx, h_c03_cxx;
-const struct hx_harness *const hx_harnesses[] = { &h_c01, &h_c04, &h_c05, &h_c06, &h_c12, &h_c07, &h_c15, &h_c08, &h_c09, &h_c02, &h_c17, &h_c16, &h_c10, &h_c11, &h_c13, &h_c03, &h_c03_deep, &h_c14, &h_c20, &h_c16_cxx, &h_c03_cxx, NULL };
+extern const struct hx_harness h_c01, h_c04, h_c05, h_c06, h_c12, h_c07, h_c15, h_c08, h_c09, h_c02, h_c17, h_c16, h_c10, h_c11, h_c13, h_c03, h_c03_deep, h_c14, h_c20, h_c16_cxx, h_c03_cxx, h_c15_cxx;
+const struct hx_harness *const hx_harnesses[] = { &h_c01, &h_c04, &h_c05, &h_c06, &h_c12, &h_c07, &h_c15, &h_c08, &h_c09, &h_c02, &h_c17, &h_c16, &h_c10, &h_c11, &h_c13, &h_c03, &h_c03_deep, &h_c14, &h_c20, &h_c16_cxx, &h_c03_cxx, &h_c15_cxx, NULL };
